@@ -2188,6 +2188,7 @@ func (e *CoreExtension) functionParent(args ...interface{}) (interface{}, error)
 		// Create a clean context without parent() function to prevent recursion
 		cleanCtx := NewRenderContext(ctx.env, ctx.context, ctx.engine)
 		cleanCtx.sandboxed = ctx.sandboxed // parent() inside a sandbox stays sandboxed
+		cleanCtx.lastLoadedTemplate = ctx.lastLoadedTemplate
 		defer cleanCtx.Release()
 
 		// Copy all blocks and variables
